@@ -34,8 +34,15 @@ def comp : Component where
     | some s =>
       match ws with
       | ["obs", w, h, t] =>
-        let txt := s!"{s.watchers} {s.heap.length} {s.tokens}"
-        some (ts, if txt = s!"{w} {h} {t}" then "ok" else s!"state-differs model {showSt s}")
+        -- watchers and heap length are exact.  Wake tokens are consumed OUTSIDE the locked sections (in a
+        -- watcher's select), so the real channel may already be shorter than the model's count by the
+        -- number of sleeping watchers that have taken a token but have not run their section yet
+        -- (the model consumes the token when that section arrives).
+        let nSleep := (s.threads.filter fun p => match p with | .sleeping _ _ _ => true | _ => false).length
+        let tokOk : Bool := match t.toNat? with
+          | some tk => decide (tk ≤ s.tokens) && decide (s.tokens - tk ≤ nSleep)
+          | none => false
+        some (ts, if s!"{s.watchers} {s.heap.length}" == s!"{w} {h}" && tokOk then "ok" else s!"state-differs model {showSt s}")
       | ["sleep", i, d] => do
         let i ← i.toNat?; let d ← d.toNat?
         pure (ts, match s.threads[i]? with
